@@ -34,7 +34,7 @@ def run(ctx, rep):
     NQ = "chartparse.instrument.NoteEvent.ParsedData"
     info = check_from_chart_line(ctx, r8, NQ)
     if info is not None:
-        check_line_recogniser(ctx, NQ, info, r8, r8, r8, only={"canon", "capture", "groups"})
+        check_line_recogniser(ctx, NQ, info, r8, r8, r8, only={"canon", "capture", "groups", "upper"})
     r7 = rep.rule("sections", "the track reads note data from the note kind's list of its own lines", floor=1)
     check_track_sections(ctx, r7, which="instrument")
     rch = rep.rule("chain", "file -> lines (read().splitlines(), utf-8-sig) -> framing -> section route -> dispatcher -> builders: every link "
